@@ -28,7 +28,7 @@ def jobs(tier):
     out = []
     for fam, prof in fams:
         r = common.rng("sched", fam, prof)
-        chosen = r.sample(scheds, min(n, len(scheds)))
+        chosen = r.sample(scheds, min(n if fam != "caltrack" else 2, len(scheds)))      # a CalTRACK fit takes 10-40 s
         # always include the two extremes: one worker doing everything, one worker per meter
         ones = [s for s in scheds if len(s) == 1]
         threes = [s for s in scheds if len(s) == 3]
